@@ -115,6 +115,12 @@ class GD(GA[List[S1]], Generic[S1]):
     # a type variable INSIDE the argument handed to a generic base
     pass
 
+@dataclass
+class GPage(Generic[T1]):
+    # refers to ANOTHER specialisation of itself
+    items: List[T1]
+    warnings: Optional["GPage[str]"] = None
+
 class NTg(NamedTuple, Generic[T1]):
     x: T1
     xs: List[T1]
@@ -162,6 +168,7 @@ class Rare@MIX@:
     gn: GNode[datetime.date] = field(default_factory=lambda: GNode(datetime.date(2000, 1, 1)))
     gc: GC[int, datetime.date] = field(default_factory=lambda: GC(a=datetime.date(2000, 1, 1), b=0))
     gd: GD[datetime.date] = field(default_factory=lambda: GD([]))
+    gp: GPage[datetime.date] = field(default_factory=lambda: GPage([]))
 @CFG@
 @dataclass
 class RareD(DataClassDictMixin):
@@ -205,7 +212,7 @@ def rare_constructors_case(rng, rec):
                    bo=m.Box2(rng.choice([None, d2])), fo=rng.choice([None, d1]), fu=rng.choice([None, 3, "s"]),
                    tg=rng.choice([{"item": d1}, {"item": d2, "note": "n"}, {"item": d1, "items": [d2]}]), tgs=[{"item": 1}, {"item": 2, "note": "n", "items": [3]}],
                    ng=m.NTg(d1, [d2, d1], rng.choice([None, d2])), gn=m.GNode(d1, m.GNode(d2, m.GNode(d1)), [m.GNode(d2)]),
-                   gc=m.GC(a=d1, b=7), gd=m.GD([d2, d1]))
+                   gc=m.GC(a=d1, b=7), gd=m.GD([d2, d1]), gp=m.GPage([d1], m.GPage(["late"], m.GPage(["x"]))))
         vd = m.RareD(shapes=[m.Circle(1, r=2), m.Sq(3, side=d2)], shmap={"k": m.Sq(4, side=d1)}, shopt=m.Circle(5, r=6) if rng.random() < 0.5 else None)
         expd = {"shapes": [{"area": 1, "kind": "circle", "r": 2}, {"area": 3, "kind": "sq", "side": d2.isoformat()}],
                 "shmap": {"k": {"area": 4, "kind": "sq", "side": d1.isoformat()}}, "shopt": {"area": 5, "kind": "circle", "r": 6} if vd.shopt is not None else None}
@@ -231,7 +238,8 @@ def rare_constructors_case(rng, rec):
                "tgs": [{"item": 1}, {"item": 2, "note": "n", "items": [3]}],
                "ng": [d1.isoformat(), [d2.isoformat(), d1.isoformat()], None if v.ng.o is None else v.ng.o.isoformat()],
                "gn": {"v": d1.isoformat(), "nxt": {"v": d2.isoformat(), "nxt": {"v": d1.isoformat(), "nxt": None, "kids": []}, "kids": []}, "kids": [{"v": d2.isoformat(), "nxt": None, "kids": []}]},
-               "gc": {"b": 7, "a": d1.isoformat()}, "gd": {"a": [d2.isoformat(), d1.isoformat()]}}
+               "gc": {"b": 7, "a": d1.isoformat()}, "gd": {"a": [d2.isoformat(), d1.isoformat()]},
+               "gp": {"items": [d1.isoformat()], "warnings": {"items": ["late"], "warnings": {"items": ["x"], "warnings": None}}}}
         routes = [("codec", BasicEncoder(m.Rare).encode, BasicDecoder(m.Rare).decode)]
         if mixin:
             routes.append(("mixin", lambda x: x.to_dict(), m.Rare.from_dict))
